@@ -60,6 +60,14 @@ class CppEval:
             seen += 1
         return e
 
+    def deref_deep(self, e, depth=0):
+        """every aliased local inside e replaced by what it names (a `constexpr double t = Config::x;` read through)"""
+        if depth > 8 or not isinstance(e, tuple):
+            return e
+        if e and e[0] == "ref" and e[1] in self.alias:
+            return self.deref_deep(self.alias[e[1]], depth + 1)
+        return tuple(self.deref_deep(x, depth) if isinstance(x, tuple) else ([self.deref_deep(y, depth) for y in x] if isinstance(x, list) else x) for x in e)
+
     def mat(self, e) -> Optional[MatForm]:
         e0 = e
         e = self.deref(e)
@@ -152,7 +160,7 @@ class CppEval:
         if k == "if":
             _, cond, then, els, cval = s
             if cval is not None:
-                self.events.append({"kind": "constexpr-if", "cond": cppast.show(cond), "value": cval})
+                self.events.append({"kind": "constexpr-if", "cond": cppast.show(self.deref_deep(cond)), "value": cval})
                 self.block(then if cval else els)
                 return
             c = self.deref(cond)
